@@ -721,7 +721,8 @@ def _work_rand(args):
     with open(part, 'w') as fh:
         for tid, seed in items:
             try:
-                tr = random_trace(seed, tid, workdir, props)
+                with common.caller_state(tid):
+                    tr = random_trace(seed, tid, workdir, props)
             except Exception as exc:
                 import traceback
                 tr = {'tid': tid, 'cfg': {'n': 1, 'bonds': [], 'nt': 0, 'degenerate': []},
